@@ -69,6 +69,9 @@ func NewVoteDB(db youdb.Database, rawSk *ecdsa.PrivateKey) *VoteDB {
 		} else if v.round.Cmp(vote.Round) == 0 && v.roundIndex == vote.RoundIndex {
 			v.mark[VoteType(vote.VoteType)] = v.mark[VoteType(vote.VoteType)] + 1
 		} else {
+			// a later round/index than seen so far: it becomes the restored position
+			v.round = vote.Round
+			v.roundIndex = vote.RoundIndex
 			v.mark = make(map[VoteType]uint8)
 			v.mark[VoteType(vote.VoteType)] = 1
 		}
@@ -86,6 +89,9 @@ func NewVoteDB(db youdb.Database, rawSk *ecdsa.PrivateKey) *VoteDB {
 	nextIndex2 := ReadVoteData(v.db, v.addr, NextIndex, 2)
 	updateFn(nextIndex2)
 
+	certificate := ReadVoteData(v.db, v.addr, Certificate, 1)
+	updateFn(certificate)
+
 	return v
 }
 
@@ -97,7 +103,10 @@ func (v *VoteDB) UpdateContext(round *big.Int, roundIndex uint32) {
 	v.lock.Lock()
 	defer v.lock.Unlock()
 
-	if v.round != nil && v.round.Cmp(round) == 0 && v.roundIndex == roundIndex {
+	// Never move backwards: the position and marks restored from the database
+	// (or reached earlier) are what prevents a second vote after a restart
+	// re-enters the round at a lower index.
+	if v.round != nil && (v.round.Cmp(round) > 0 || (v.round.Cmp(round) == 0 && v.roundIndex >= roundIndex)) {
 		return
 	}
 
@@ -162,6 +171,9 @@ func (v *VoteDB) ExistVoteData(voteType VoteType, round *big.Int, roundIndex uin
 }
 
 func (v *VoteDB) alreadyVoted(voteType VoteType, round *big.Int, roundIndex uint32) bool {
+	if v.round != nil && v.round.Cmp(round) > 0 {
+		return true
+	}
 	if v.round != nil && v.round.Cmp(round) == 0 {
 		if v.roundIndex > roundIndex ||
 			(v.roundIndex == roundIndex && voteType == NextIndex && v.mark[voteType] == 2) ||
